@@ -50,6 +50,9 @@ def tasks(tier, seed):
         out.append({"id": "block-reader-negative@%d" % k0, "harness": "block_neg", "args": (nb, k0, seed)})
     for L in range(0, 4):
         out.append({"id": "writer-past-end L=%d" % L, "harness": "wpast", "args": (L,)})
+    for k0 in (0, 3, 8):
+        for ops in (("nbits8", "uint_lit1"), ("bytes1", "nbits8"), ("uint_lit1", "bit", "bytes1"), ("nbits3", "nbits8")):
+            out.append({"id": "writer-block %s@%d" % ("+".join(ops), k0), "harness": "wblock", "args": (k0, ops)})
     for k in (0, 1, 3, 8):
         out.append({"id": "out-of-range nbits(%d)" % k, "harness": "oor_nbits", "args": (k,)})
     out.append({"id": "out-of-range uint/bytes/bitarray", "harness": "oor_misc", "args": ()})
@@ -334,6 +337,68 @@ def build(task):
             return "err_at=%r" % (err_at,)
 
         return hw
+
+    if hname == "wblock":
+        k0, ops = a
+
+        def hwb(ctx):
+            L = ctx.sym_int("L", -1, 20, default=8)
+            wf = SymFile()
+            w = bio.BitstreamWriter(wf)
+            w.write_nbits(k0, (1 << k0) - 1 if k0 else 0)
+            w.bounded_block_begin(L)
+            # reference: every primitive is its MSB-first bit sequence pushed through the documented bit rule
+            model_bits = [1] * k0
+            remaining = L
+            err_model = None
+            err_real = None
+            for i, op in enumerate(ops):
+                n = {"nbits8": 8, "uint_lit1": 8, "bytes1": 8, "bit": 1, "nbits3": 3}[op]
+                v = ctx.sym_bits("v%d" % i, n, (0xA5 >> (8 - n)) if n < 8 else 0xA5)
+                vb = [(v >> (n - 1 - j)) & 1 for j in range(n)]
+                try:
+                    if op == "nbits8":
+                        w.write_nbits(8, v)
+                    elif op == "nbits3":
+                        w.write_nbits(3, v)
+                    elif op == "uint_lit1":
+                        w.write_uint_lit(1, v)
+                    elif op == "bytes1":
+                        w.write_bytes(1, [v])
+                    else:
+                        w.write_bit(v)
+                except ValueError:
+                    err_real = i
+                for b in vb:
+                    if err_model is not None:
+                        break
+                    if remaining > 0:
+                        model_bits.append(b)
+                    elif not bool(b == 1):
+                        err_model = i
+                    remaining = remaining - 1
+                if err_real is not None or err_model is not None:
+                    break
+            ctx.prove(err_real == err_model, "zero-past-end-raises-iff", [ops, err_real, err_model])
+            if err_real is None and err_model is None:
+                ctx.prove_eq(w.bits_remaining, remaining, "bits_remaining")
+                unused = w.bounded_block_end()
+                ctx.prove_eq(unused, sym_max(0, remaining), "unused")
+                nb = len(model_bits)
+                t = w.tell()
+                ctx.prove(t[0] == nb // 8 and t[1] == 7 - nb % 8, "tell", [list(map(cv_of, t)), nb])
+                w.flush()
+                cells = wf.getcells()
+                ctx.prove(len(cells) == (nb + 7) // 8, "written-length", [len(cells), nb])
+                for i in range(min(len(cells), (nb + 7) // 8)):
+                    ref = 0
+                    for j in range(8):
+                        k = 8 * i + j
+                        ref = 2 * ref + (model_bits[k] if k < nb else 0)
+                    ctx.prove_eq(cells[i], ref, "written-byte%d" % i)
+            return "err=%r" % (err_real,)
+
+        return hwb
 
     if hname == "oor_nbits":
         (k,) = a
